@@ -17,7 +17,7 @@ REACH = {"H20a": ["h20.accepted", "h20.rejected"], "H20t": ["h20.accepted", "h20
 
 
 def bounds(tier):
-    n = 20 if tier == "thorough" else 18
+    n = 22 if tier == "thorough" else 18
     return {
         "H20a": "fully symbolic buffers: SD header 12..%d bytes, SD entry 16..18 bytes with symbolic option count, SD option 3..%d bytes and typed exact-size payloads, SOME/IP message 16..24 bytes" % (n, 9 if tier == "thorough" else 8),
         "H20t": "4 SD templates incl. a non-canonical one (non-zero reserved bytes, configuration tail garbage, unknown option type, unknown protocol number, unreferenced option, index with zero count) with windows of %s symbolic bytes at every position" % ("1, 2 (every position) / 3 (every 4th) / 4 (every 2nd)" if tier == "thorough" else "1 (every position) / 4 (every 4th)"),
@@ -44,14 +44,14 @@ def _template(variant):
 
 def cases(tier, seed):
     out = []
-    nmax = 20 if tier == "thorough" else 18
+    nmax = 22 if tier == "thorough" else 18
     for n in range(12, nmax + 1):
         out.append({"h": "H20a", "dec": "sd", "n": n, "_w": 1 + (n > 12) * 10 ** max(0, (n - 12) // 4)})
     for n in (16, 17, 18):
         out.append({"h": "H20a", "dec": "entry", "n": n})
     for n in range(3, (10 if tier == "thorough" else 9)):
         out.append({"h": "H20a", "dec": "option", "n": n, "_w": 2 + 4 ** max(0, n - 6)})
-    for ty, size in ((1, 6), (2, 5), (4, 9), (6, 21), (0x14, 9), (0x16, 21), (0x24, 9), (0x26, 21), (0x99, 4)):
+    for ty, size in ((1, 7 if tier == "thorough" else 6), (2, 5), (4, 9), (6, 21), (0x14, 9), (0x16, 21), (0x24, 9), (0x26, 21), (0x99, 4)):
         out.append({"h": "H20a", "dec": "option-typed", "type": ty, "size": size, "_w": 2})
     for n in range(16, 25):
         out.append({"h": "H20a", "dec": "someip", "n": n, "_w": 3})
